@@ -78,6 +78,26 @@ let uspl toks =
              (full_hex p.up_host) (int_of_z p.up_port) (full_hex p.up_path) (full_hex p.up_query))
   | _ -> failwith "uspl args"
 
+(* uinto <create> <dst text | -> <bytes> : coap_split_uri + coap_uri_into_optlist; the build
+   capabilities are those of the C driver (all supported in the harness configuration) *)
+let bytes_of_string s = List.init (String.length s) (fun i -> zbyte.(Char.code s.[i]))
+let uinto toks =
+  match toks with
+  | [cr; dst; b] ->
+      let caps = { ucap_dtls = true; ucap_tcp = true; ucap_tls = true; ucap_ws = true;
+                   ucap_wss = true } in
+      (match uri_split caps false (bytes_of_tok b) with
+       | UOob -> "OOB"
+       | UOk (UErr rc) -> Printf.sprintf "rc=%d" (int_of_z rc)
+       | UOk (USplit p) ->
+           let d = if dst = "-" then None else Some (bytes_of_string dst) in
+           (match uri_into_optlist p d (cr = "1") [] with
+            | UOob -> "OOB"
+            | UOk chain ->
+                let s = show_chain (UOk chain) in
+                "rc=0 into=1" ^ String.sub s 4 (String.length s - 4)))
+  | _ -> failwith "uinto args"
+
 (* ---- specification side (oracle): what RFC 3986 / RFC 7252 6.4 say the options are ---- *)
 let show_optl l = match l with [] -> "-" | _ -> String.concat "," (List.map full_hex l)
 let show_spec r = match r with None -> "MALFORMED" | Some l -> show_optl l
@@ -106,5 +126,5 @@ let spec_norm toks = show_optl (uri_norm (List.map bytes_of_tok toks))
 
 let () =
   register "upath" upath; register "uquery" uquery; register "upol" upol; register "uqol" uqol;
-  register "ugetp" (uget false); register "ugetq" (uget true); register "uspl" uspl;
+  register "ugetp" (uget false); register "ugetq" (uget true); register "uspl" uspl; register "uinto" uinto;
   register "spec_path" spec_path; register "spec_query" spec_query; register "spec_norm" spec_norm
